@@ -1395,7 +1395,22 @@ class DataboxWorld(World):
         if fails and a["when_fails"] in ("critical", "error"):
             if status == "ok":
                 raise Violation("refine", opname, pred, "", f"the function failed on a selected item but apply(when_fails={a['when_fails']!r}) returned normally")
-            # what a rejected apply leaves behind is open item by item (old or new), never anything else
+            # what a rejected apply leaves behind is open item by item (old or new), never anything else; an object
+            # bound under several selected names may have been reached any number of times up to that count
+            if fn == "shift_in_place":
+                for i, c in count.items():
+                    real_i, m_i = self.heap[i]
+                    for j in range(c, -1, -1):
+                        e = sm.t_shift_int(m_i, by * j)
+                        if conforms(real_i, e, "probe") is None:
+                            if j == 0:
+                                mutable.pop(i, None)
+                            else:
+                                mutable[i] = e
+                            for n, x in bind.items():
+                                if x == ("s", i):
+                                    want[n] = ("s", Exp(e.freq, e.nv, e.cells, desc=m_i.desc), ("same", i)) if j else self._value_exp(x, fresh=False)
+                            break
             for n, w in list(want.items()):
                 old = self._value_exp(bind[n], fresh=False)
                 if n in box.keys() and w != old:
